@@ -145,6 +145,15 @@ def gen_cqm(ctx, r):
         ref.add_constraint_terms(ts, sense, rhs, label, weight, penalty)
         lines.append(f'cont {lab(label)} {sense} {rat(rhs)} {"-" if weight is None else rat(weight)} {c05.PEN[penalty]} {c05.terms_arg(ts)}')
         ctx.tick('constraint:' + ('const' if not ref.cons[label].p.order else 'vars') + (':soft-' + penalty if weight is not None else ':hard'))
+    bins = [v for v in labs if c05.KIND[v] == 'BINARY']
+    if len(bins) >= 2 and r.random() < .3:
+        # a discrete (one-hot) constraint next to the others: reported like any other equality `sum == 1`
+        dv = r.sample(bins, r.choice([2, 2, 3]) if len(bins) > 2 else 2)
+        code = f'cqm.add_discrete({dv!r}, label="disc")'
+        exec(code, dict(cqm=cqm)); src.append(code)
+        ref.add_discrete_vars(dv, 'disc', True)
+        lines.append(f'discv {lab("disc")} 1 ' + ','.join(lab(v) for v in dv))
+        ctx.tick('constraint:discrete')
     ctx.tick('objective:' + ('const' if not ref.obj.order else 'vars'))
     if wide:
         ctx.tick('wide INTEGER model')
@@ -650,9 +659,26 @@ def evaluate(ctx, r, out, cqm, ref, st):
                      f'definition {float(en)}, {feas}, {[per[l][3] for l in clabels]}',
                      f'es = ExactCQMSolver().sample_cqm(cqm{tolkw})\nprint(es)\nassert False\n')
                 return False
-        if seen != set(itertools.product(*[[F(a) for a in d] for d in dom])):
+        # the expected rows: the product of the domains — one-hot assignments only for the variables of a discrete constraint
+        groups = [list(c_.p.order) for c_ in ref.cons.values() if ref.discrete(c_)]
+        gvars = [v for g_ in groups for v in g_]
+        want_rows = None
+        if len(set(gvars)) == len(gvars):
+            free = [v for v in labs if v not in gvars]
+            want_rows = set()
+            for combo in itertools.product(*[dom[labs.index(v)] for v in free]):
+                base = dict(zip(free, combo))
+                for hots in itertools.product(*groups):
+                    row_ = dict(base)
+                    for g_, hot in zip(groups, hots):
+                        for v in g_:
+                            row_[v] = 1 if v == hot else 0
+                    want_rows.add(tuple(F(row_[v]) for v in labs))
+            if groups:
+                ctx.tick('exact_solver: with a discrete constraint')
+        if want_rows is not None and seen != want_rows:
             fail('ExactCQMSolver.sample_cqm', 'enumeration', 'the rows are not exactly the assignments of the variables\' domains',
-                 f'es = ExactCQMSolver().sample_cqm(cqm)\nassert len(es) == {int(np.prod([len(d) for d in dom]))}\n')
+                 f'es = ExactCQMSolver().sample_cqm(cqm)\nassert len(es) == {len(want_rows)}\n')
             return False
     elif (not labs or any(ref.vars[v][0] == 'REAL' for v in labs)) and r.random() < .3:
         # no variable at all (an empty sample set WITHOUT feasibility fields — recorded, not judged) / a REAL variable (ValueError)
